@@ -255,6 +255,33 @@ func genClassify(ctx *Ctx, emit func(Case)) {
 				}})
 		}
 	}
+	// --- Unicode white space around genuine armored prefixes (IsSaltpackArmoredPrefix trims with strings.TrimSpace)
+	for k := 0; k < ctx.N(150, 2000); k++ {
+		c := corpus[r.Intn(len(corpus))]
+		if len(c.msg) > 4000 {
+			continue
+		}
+		arm, _ := saltpack.Armor62Seal(c.msg, armorTypeFor(c.mode), prng.Pick(r, "", "KB"))
+		cut := prng.Pick(r, len(arm), r.Intn(len(arm)+1), 10+r.Intn(80))
+		if cut > len(arm) {
+			cut = len(arm)
+		}
+		text := unicodeEnds(r) + arm[:cut] + unicodeEnds(r)
+		line := "cl.arm " + keys.Hex([]byte(text))
+		out := goExec(line)
+		emit(Case{Stream: "classify.armored.unicode", Line: line, GoOut: out, Branch: strings.Fields(out)[0]})
+		if k%3 == 0 {
+			l2 := fmt.Sprintf("cl.stream %d %s", prng.Pick(r, 64, 512, 4096), keys.Hex([]byte(text)))
+			o2 := goExec(l2)
+			emit(Case{Stream: "classify.stream.unicode", Line: l2, GoOut: o2, Branch: strings.Fields(o2)[0],
+				Direct: func() string {
+					if strings.Contains(o2, "CONSUMED") {
+						return "ClassifyStream consumed input: " + trunc(l2, 200)
+					}
+					return ""
+				}})
+		}
+	}
 	// --- arbitrary non-saltpack strings and near misses
 	al := []string{"BEGIN", "END", "SALTPACK", "ENCRYPTED", "MESSAGE", "SIGNED", "DETACHED", "SIGNATURE", "KEYBASE", ".", " ", "  ", "\n", ">", "x", "B", "BEG", "SALT", "0", "kYM5h1pg6qz9UMn", "!", "-----BEGIN PGP MESSAGE-----"}
 	for k := 0; k < ctx.N(1500, 20000); k++ {
